@@ -51,7 +51,7 @@ def replay_chunk(ctx, texts):
         got = []
         for rec in hist:
             if rec["call"] == "reset":
-                o, v = w.reset(rec["start"] or 1)
+                o, v = w.reset(rec["start"] or 1, rec["act"]["id"])
             else:
                 o, v = w.step(rec["act"])
             got.append(_snap(w, rec["call"], o, v))
@@ -60,7 +60,7 @@ def replay_chunk(ctx, texts):
         bad = None
         for i, rec in enumerate(hist[last:]):
             if rec["call"] == "reset":
-                o, v = fresh.reset(rec["start"] or 1)
+                o, v = fresh.reset(rec["start"] or 1, rec["act"]["id"])
             else:
                 o, v = fresh.step(rec["act"])
             r = _snap(fresh, rec["call"], o, v)
@@ -82,7 +82,7 @@ def replay_chunk(ctx, texts):
 
 
 def check(rep, tier):
-    ms = props_env.c04_models("quick") + props_env.repro_models(tier)
+    ms = props_env.c04_models(tier, maxopt=2 if tier == "quick" else 3) + props_env.repro_models(tier)
     for m in ms:
         ctx = dict(m["ctx"])
         explore.explore_and_replay(rep, "repro-" + m["name"], m["module"], m["cfg"], ("harness.repro_check", "replay_chunk"), ctx,
